@@ -11,9 +11,11 @@ def main():
     try: commits = subprocess.check_output(['git', '-C', '/repo', 'log', '--format=%h %s', '--grep=AMGCL_VERIF'], text=True).strip().splitlines()
     except Exception: commits = []
     checks = []; na = []
+    # Only checks the lead has reviewed and run on seeds 1..3 are registered (framework/registered.txt).
+    reg = set(open(os.path.join(VERIF, 'framework', 'registered.txt')).read().split())
     for p in props:
         s = registry.PROPS.get(p)
-        if not s or s.get('unregistered'):
+        if not s or s.get('unregistered') or p not in reg:
             na.append(dict(property_id=p, reason=(s or {}).get('na_reason', NOT_BUILT))); continue
         checks.append(dict(property_id=p, quick_cmd='./vf check %s --tier quick' % p, thorough_cmd='./vf check %s --tier thorough' % p,
                            evidence_file='/verif/evidence/%s.json' % p, replay_cmd_template='./vf replay {path}', engine='vf',
